@@ -600,6 +600,22 @@ def _literals(chk):
     check_number_literals(chk, 'C12.lit')
 
 
+def _sort_spelling(chk):
+    """arraySort with a script comparison function: script functions return floats (a - b is 1.0, never 1); evaluated by abstract execution (E6l, shared with C11.U)"""
+    from .. import libsim
+    from ..lib import library_functions
+    libfuncs = {lf.name: lf for lf in library_functions(chk.repo, 'C12.spell')}
+    counts, problems = libsim.run_sort_functions(chk.repo, libfuncs, 'C12.spell')
+    lib = chk.repo.module('library')
+    mine = [p for p in problems if p[0] == 'arraySort']
+    if mine:
+        chk.bad('C12.spell', lib, libfuncs['arraySort'].pyname, f'arraySort [{mine[0][1]}]: {mine[0][2][:100]}', f'abstract execution of arraySort with a comparison function whose results are '
+                f'floats / fractions: {mine[0][2]} ({len(mine)} of {counts.get("arraySort", 0)} runs deviate)', node=libfuncs['arraySort'].func)
+    else:
+        chk.ok('C12.spell', f'arraySort: {counts.get("arraySort", 0)} abstract calls incl. comparison functions returning float and fractional results: the stable sort under that comparison',
+               count=counts.get('arraySort', 1))
+
+
 def run(chk):
     chk.rule('C12.sink', 'maybe-float number must not reach an integer-only operand position uncoerced', floor=30)
     chk.rule('C12.chk', 'integrality test by value; no int-vs-float type discrimination on script values', floor=3)
@@ -618,9 +634,10 @@ def run(chk):
         chk.advisory('C12.chk', _integrality, chk)
     else:
         chk.guard('C12.chk', _integrality, chk)
-    chk.guard('C12.chk', _type_tests, chk)
+    f0, u0 = len(chk.findings), len(chk.unrecognised)
     chk.guard('C12.spell', _arith_spelling, chk)
     chk.guard('C12.spell', _number_function_spelling, chk)
+    chk.guard('C12.spell', _sort_spelling, chk)
     chk.guard('C12.lit', _literals, chk)
     # int and float spellings print alike: value_string (C13.D/C) and value_json (C14.S/N) - shared rules
     from . import c13, c14
@@ -657,5 +674,9 @@ def run(chk):
 
     chk.rule('C14.R', 'shared with C14: jsonStringify evaluated with the indent spelled as int and as float, integral floats inside values')
     chk._json_roundtrip_ok = bool(chk.guard('C14.R', c14.check_roundtrip_sim, chk))
+    # the type-test read-back (isinstance(x, int) alone, type(x) is int, .is_integer()): a spelling of a test, not a behaviour.  Every consumer of numbers was evaluated above
+    # with both spellings; the read-back is advisory when all of those decided positively, undecided when one of them was undecided, armed when one found a deviation
+    decided = False if len(chk.findings) > f0 else (None if len(chk.unrecognised) > u0 else True)
+    chk.readback(decided)('C12.chk', _type_tests, chk)
     aware = chk.guard('C14.S', c14.check_substitutions, chk)
     chk.guard('C14.N', c14.check_number_cleanup, chk, aware or [])
